@@ -1,1 +1,336 @@
-/-! C13 — property theorems (stub: nothing proved yet). -/
+import B6.Lemmas.MutableRoot
+/-!
+# C13 — A rejected change leaves the world as it was
+
+Model: `B6.Model.Mutable` — `Layer.addFeature` performs the temporary replacement
+`(*m.features)[id] = f`, validates the referrers against that world, and puts the existing feature
+back (or deletes the temporary entry) on **both** outcomes, as mutable.go does after
+`fixes/C13-restore-on-rejected-replacement.patch` and `fixes/C13-validate-referrers-of-base-features.patch`;
+`mergedApply` is `MergedChange.Apply` (canary overlay over the world, then the real thing).
+Validation decisions (`validate`) use the `Oracle` for what S2 decides; the theorems hold for every oracle.
+-/
+namespace B6.Props.C13
+open B6.Model.Mutable
+open B6.Spec.World (changeIds)
+
+/-- every observation C13 speaks about: lookups (tags, geometry, resolved coordinates), locations,
+search hits and what they are wrapped as, references, enumeration -/
+structure ObsEq (v v' : View) : Prop where
+  find : v'.find = v.find
+  hitFV : v'.hitFV = v.hitFV
+  loc : v'.loc = v.loc
+  search : v'.search = v.search
+  refs : v'.refs = v.refs
+  ids : ∀ id, id ∈ v'.ids ↔ id ∈ v.ids
+
+theorem obsEq_of_same {l l' : Layer} (h : l.Same l') (b : View) (ll : Id → Option Pt) :
+    ObsEq (l.view b ll) (l'.view b ll) :=
+  ⟨h.find b, h.hitFV b ll, h.loc b, h.search b, h.refsOf b, h.mem_ids b⟩
+
+/-- **Rejected AddFeature.** If `AddFeature` reports an error — because the feature itself, or a feature
+that references it, would be invalid — the world it leaves behind answers every query as before. -/
+theorem rejected_unchanged {b : View} {o : Oracle} {l l' : Layer} {f : Feature} {e : Err}
+    (h : l.addFeature b o f = (l', some e)) (ll : Id → Option Pt) :
+    ObsEq (l.view b ll) (l'.view b ll) :=
+  obsEq_of_same (addFeature_err_same h) b ll
+
+/-- the same for every operation of the mutable world that reports an error other than the
+"partially applied" one of a merged change (excluded by `merged_atomic_partial` below) -/
+theorem rejected_unchanged_step {b : View} {o : Oracle} {l l' : Layer} {op : Op} {e : Err}
+    (h : l.step b o op = (l', some e)) (he : e ≠ .partiallyApplied) (ll : Id → Option Pt) :
+    ObsEq (l.view b ll) (l'.view b ll) := by
+  cases op with
+  | addFeature f => exact rejected_unchanged h ll
+  | addTag id t =>
+    simp only [Layer.step] at h
+    cases hs : l.addTag b id t with
+    | ok l1 => rw [hs] at h; cases h
+    | error e' => rw [hs] at h; simp only [Prod.mk.injEq] at h; obtain ⟨rfl, _⟩ := h
+                  exact obsEq_of_same (Layer.Same.rfl' l) b ll
+  | removeTag id k =>
+    simp only [Layer.step] at h
+    cases hs : l.removeTag b id k with
+    | ok l1 => rw [hs] at h; cases h
+    | error e' => rw [hs] at h; simp only [Prod.mk.injEq] at h; obtain ⟨rfl, _⟩ := h
+                  exact obsEq_of_same (Layer.Same.rfl' l) b ll
+  | merged cs =>
+    simp only [Layer.step] at h
+    rcases mergedApply_cases b o l cs with ⟨e', _, he', _⟩ | ⟨l1, h1, _⟩ | ⟨l1, e', h1, _, _⟩
+    · rw [he'] at h; simp only [Prod.mk.injEq] at h; obtain ⟨rfl, _⟩ := h
+      exact obsEq_of_same (Layer.Same.rfl' l) b ll
+    · rw [h1] at h; cases h
+    · rw [h1] at h; simp only [Prod.mk.injEq, Option.some.injEq] at h
+      exact absurd h.2.symm he
+
+/-! ## Merged changes -/
+
+/-- the full statement: a merged change either applies all of its parts, or reports an error and
+leaves the world literally untouched — it never ends "partially applied" -/
+def merged_atomic_statement : Prop :=
+  ∀ (b : View) (o : Oracle) (l : Layer) (cs : List Change),
+    (∃ l', mergedApply b o l cs = (l', none) ∧ applyAll b o l cs = (l', none)) ∨
+    (∃ e, e ≠ Err.partiallyApplied ∧ mergedApply b o l cs = (l, some e))
+
+/-- the canary is faithful for a change list: whatever the fresh overlay over the world accepts, the
+world accepts -/
+def CanaryFaithful (b : View) (o : Oracle) (l : Layer) (cs : List Change) : Prop :=
+  (applyAll (l.view b (l.loc b)) o Layer.empty cs).2 = none → (applyAll b o l cs).2 = none
+
+/-- **Merged change, proved part.** Atomicity holds for every change list on which the canary is
+faithful.  What is *not* proved in general is `CanaryFaithful` for lists containing `AddFeatures`
+parts (it needs the reference index of C15 and the validity invariant of C37 to agree between the
+canary and the world); it is proved for tag-only lists below and checked by the correspondence run
+for lists with feature parts (`propfail merged-partially-applied`). -/
+theorem merged_atomic_partial (b : View) (o : Oracle) (l : Layer) (cs : List Change)
+    (hc : CanaryFaithful b o l cs) :
+    (∃ l', mergedApply b o l cs = (l', none) ∧ applyAll b o l cs = (l', none)) ∨
+    (∃ e, e ≠ Err.partiallyApplied ∧ mergedApply b o l cs = (l, some e)) := by
+  rcases mergedApply_cases b o l cs with ⟨e, he, h1, _⟩ | ⟨l1, h1, h2⟩ | ⟨l1, e, _, h2, h3⟩
+  · exact Or.inr ⟨e, he, h1⟩
+  · exact Or.inl ⟨l1, h1, h2⟩
+  · have := hc h3
+    rw [h2] at this
+    cases this
+
+/-! ### the canary is faithful for tag changes -/
+
+def tagOnly : Change → Bool
+  | .addFeatures _ => false
+  | _ => true
+
+theorem isSome_find_of_tagOf {v : View} {id : Id} : (v.find id).isSome = (tagOf v id "").isSome := by
+  simp [tagOf]
+
+theorem addTag_ok_iff {b : View} {l : Layer} {id : Id} {t : Tag} :
+    (∃ l', l.addTag b id t = .ok l') ↔ (l.find b id).isSome = true := by
+  constructor
+  · rintro ⟨l', h⟩
+    cases hf : l.find b id with
+    | some fv => rfl
+    | none =>
+      unfold Layer.addTag at h
+      cases hg : AMap.get l.feats id with
+      | some f => rw [find_overlay hg] at hf; cases hf
+      | none => simp [hg, hf] at h
+  · intro h
+    cases hs : l.addTag b id t with
+    | ok l' => exact ⟨l', rfl⟩
+    | error e => rw [addTag_error hs] at h; cases h
+
+theorem removeTag_ok_iff {b : View} {l : Layer} {id : Id} {k : Key} :
+    (∃ l', l.removeTag b id k = .ok l') ↔ (l.find b id).isSome = true := by
+  constructor
+  · rintro ⟨l', h⟩
+    cases hf : l.find b id with
+    | some fv => rfl
+    | none =>
+      unfold Layer.removeTag at h
+      cases hg : AMap.get l.feats id with
+      | some f => rw [find_overlay hg] at hf; cases hf
+      | none => simp [hg, hf] at h
+  · intro h
+    cases hs : l.removeTag b id k with
+    | ok l' => exact ⟨l', rfl⟩
+    | error e => rw [removeTag_error hs] at h; cases h
+
+/-- tag edits never create or remove features -/
+theorem exists_addTag {b : View} {l l' : Layer} {id : Id} {t : Tag} (hb : b.IdsOK) (hl : l.FeatsId)
+    (h : l.addTag b id t = .ok l') (id' : Id) : (l'.find b id').isSome = (l.find b id').isSome := by
+  have := tagOf_addTag_ok hb hl h (l.loc b) (l'.loc b) id' ""
+  rw [← find_view b (l'.loc b), ← find_view b (l.loc b), isSome_find_of_tagOf, isSome_find_of_tagOf, this]
+  by_cases hid : id' = id
+  · subst hid; simp
+  · simp [hid]
+
+theorem exists_removeTag {b : View} {l l' : Layer} {id : Id} {k : Key} (hb : b.IdsOK) (hl : l.FeatsId)
+    (h : l.removeTag b id k = .ok l') (id' : Id) : (l'.find b id').isSome = (l.find b id').isSome := by
+  have := tagOf_removeTag_ok hb hl h (l.loc b) (l'.loc b) id' ""
+  rw [← find_view b (l'.loc b), ← find_view b (l.loc b), isSome_find_of_tagOf, isSome_find_of_tagOf, this]
+  by_cases hid : id' = id
+  · subst hid; simp
+  · simp [hid]
+
+/-- a tag-only change list succeeds exactly when every feature it names exists; existence is left as
+it was -/
+theorem applyAddTags_ok_iff {b : View} (hb : b.IdsOK) (ts : List (Id × Tag)) :
+    ∀ (l : Layer), l.FeatsId →
+      (((applyAddTags b l ts).2 = none ↔ ∀ e ∈ ts, (l.find b e.1).isSome = true) ∧
+       ((applyAddTags b l ts).2 = none → (applyAddTags b l ts).1.FeatsId ∧
+          ∀ id, ((applyAddTags b l ts).1.find b id).isSome = (l.find b id).isSome)) := by
+  induction ts with
+  | nil => intro l hl; simp [applyAddTags, hl]
+  | cons e rest ih =>
+    intro l hl
+    obtain ⟨id, t⟩ := e
+    simp only [applyAddTags]
+    cases hs : l.addTag b id t with
+    | ok l1 =>
+      simp only
+      have hl1 := featsId_addTag hl hs
+      have hex := exists_addTag hb hl hs
+      obtain ⟨i1, i2⟩ := ih l1 hl1
+      refine ⟨?_, fun h => ?_⟩
+      · rw [i1]
+        simp only [List.mem_cons, forall_eq_or_imp]
+        constructor
+        · intro h
+          exact ⟨addTag_ok_iff.1 ⟨l1, hs⟩, fun e he => by rw [← hex]; exact h e he⟩
+        · rintro ⟨_, h⟩ e he; rw [hex]; exact h e he
+      · obtain ⟨j1, j2⟩ := i2 h
+        exact ⟨j1, fun id' => by rw [j2, hex]⟩
+    | error err =>
+      simp only
+      refine ⟨?_, fun h => by cases h⟩
+      constructor
+      · intro h; cases h
+      · intro h
+        have := h (id, t) List.mem_cons_self
+        rw [addTag_error hs] at this; cases this
+
+theorem applyRemoveTags_ok_iff {b : View} (hb : b.IdsOK) (ts : List (Id × Key)) :
+    ∀ (l : Layer), l.FeatsId →
+      (((applyRemoveTags b l ts).2 = none ↔ ∀ e ∈ ts, (l.find b e.1).isSome = true) ∧
+       ((applyRemoveTags b l ts).2 = none → (applyRemoveTags b l ts).1.FeatsId ∧
+          ∀ id, ((applyRemoveTags b l ts).1.find b id).isSome = (l.find b id).isSome)) := by
+  induction ts with
+  | nil => intro l hl; simp [applyRemoveTags, hl]
+  | cons e rest ih =>
+    intro l hl
+    obtain ⟨id, k⟩ := e
+    simp only [applyRemoveTags]
+    cases hs : l.removeTag b id k with
+    | ok l1 =>
+      simp only
+      have hl1 := featsId_removeTag hl hs
+      have hex := exists_removeTag hb hl hs
+      obtain ⟨i1, i2⟩ := ih l1 hl1
+      refine ⟨?_, fun h => ?_⟩
+      · rw [i1]
+        simp only [List.mem_cons, forall_eq_or_imp]
+        constructor
+        · intro h
+          exact ⟨removeTag_ok_iff.1 ⟨l1, hs⟩, fun e he => by rw [← hex]; exact h e he⟩
+        · rintro ⟨_, h⟩ e he; rw [hex]; exact h e he
+      · obtain ⟨j1, j2⟩ := i2 h
+        exact ⟨j1, fun id' => by rw [j2, hex]⟩
+    | error err =>
+      simp only
+      refine ⟨?_, fun h => by cases h⟩
+      constructor
+      · intro h; cases h
+      · intro h
+        have := h (id, k) List.mem_cons_self
+        rw [removeTag_error hs] at this; cases this
+
+theorem applyAll_tags_ok_iff {b : View} {o : Oracle} (hb : b.IdsOK) (cs : List Change) (hc : ∀ c ∈ cs, tagOnly c = true) :
+    ∀ (l : Layer), l.FeatsId →
+      ((applyAll b o l cs).2 = none ↔ ∀ id ∈ cs.flatMap changeIds, (l.find b id).isSome = true) := by
+  induction cs with
+  | nil => intro l _; simp [applyAll]
+  | cons c rest ih =>
+    intro l hl
+    have hrest : ∀ c ∈ rest, tagOnly c = true := fun c' h => hc c' (List.mem_cons_of_mem _ h)
+    simp only [applyAll, List.flatMap_cons, List.mem_append]
+    cases c with
+    | addFeatures fs => have := hc _ List.mem_cons_self; simp [tagOnly] at this
+    | addTags ts =>
+      obtain ⟨i1, i2⟩ := applyAddTags_ok_iff hb ts l hl
+      simp only [Change.apply]
+      cases hr : applyAddTags b l ts with
+      | mk l1 r1 =>
+        rw [hr] at i1 i2
+        cases r1 with
+        | none =>
+          simp only
+          obtain ⟨j1, j2⟩ := i2 rfl
+          rw [ih hrest l1 j1]
+          constructor
+          · intro h id hid
+            rcases hid with hid | hid
+            · simp only [changeIds, List.mem_map] at hid
+              obtain ⟨e, he, rfl⟩ := hid
+              exact (i1.1 rfl) e he
+            · rw [← j2]; exact h id hid
+          · intro h id hid; rw [j2]; exact h id (Or.inr hid)
+        | some e =>
+          simp only
+          constructor
+          · intro h; cases h
+          · intro h
+            have := i1.2 (fun e he => h e.1 (Or.inl (by simp only [changeIds, List.mem_map]; exact ⟨e, he, rfl⟩)))
+            cases this
+    | removeTags ts =>
+      obtain ⟨i1, i2⟩ := applyRemoveTags_ok_iff hb ts l hl
+      simp only [Change.apply]
+      cases hr : applyRemoveTags b l ts with
+      | mk l1 r1 =>
+        rw [hr] at i1 i2
+        cases r1 with
+        | none =>
+          simp only
+          obtain ⟨j1, j2⟩ := i2 rfl
+          rw [ih hrest l1 j1]
+          constructor
+          · intro h id hid
+            rcases hid with hid | hid
+            · simp only [changeIds, List.mem_map] at hid
+              obtain ⟨e, he, rfl⟩ := hid
+              exact (i1.1 rfl) e he
+            · rw [← j2]; exact h id hid
+          · intro h id hid; rw [j2]; exact h id (Or.inr hid)
+        | some e =>
+          simp only
+          constructor
+          · intro h; cases h
+          · intro h
+            have := i1.2 (fun e he => h e.1 (Or.inl (by simp only [changeIds, List.mem_map]; exact ⟨e, he, rfl⟩)))
+            cases this
+
+/-- **The canary is faithful for tag changes** (`AddTags` / `RemoveTags` parts in any number and order). -/
+theorem canary_faithful_tags {b : View} {o : Oracle} {l : Layer} (hb : b.IdsOK) (hl : l.FeatsId)
+    (cs : List Change) (hc : ∀ c ∈ cs, tagOnly c = true) : CanaryFaithful b o l cs := by
+  intro h
+  have hv : (l.view b (l.loc b)).IdsOK := view_idsOK hb hl (l.loc b)
+  have he : Layer.empty.FeatsId := by intro i f h; simp [Layer.empty] at h
+  rw [applyAll_tags_ok_iff hv cs hc Layer.empty he] at h
+  rw [applyAll_tags_ok_iff hb cs hc l hl]
+  intro id hid
+  have := h id hid
+  rw [find_base (by simp [Layer.empty])] at this
+  simpa [find_view] using this
+
+/-- **Merged tag changes are atomic** — unconditionally. -/
+theorem merged_atomic_tags {b : View} {o : Oracle} {l : Layer} (hb : b.IdsOK) (hl : l.FeatsId)
+    (cs : List Change) (hc : ∀ c ∈ cs, tagOnly c = true) :
+    (∃ l', mergedApply b o l cs = (l', none) ∧ applyAll b o l cs = (l', none)) ∨
+    (∃ e, e ≠ Err.partiallyApplied ∧ mergedApply b o l cs = (l, some e)) :=
+  merged_atomic_partial b o l cs (canary_faithful_tags hb hl cs hc)
+
+/-! ## Non-vacuity -/
+
+/-- base: a counter-clockwise triangle 1-2-3, closed path 1005 through it, area 2006 over the path -/
+def exampleRoot : List Feature :=
+  [⟨1, [], .point (0, 0)⟩, ⟨2, [], .point (0, 10)⟩, ⟨3, [], .point (10, 0)⟩,
+   ⟨1005, [], .path [1, 2, 3, 1]⟩, ⟨2006, [], .area [1005]⟩]
+
+def exampleOracle : Oracle := ⟨fun pts => decide (pts.length ≥ 3), fun _ => false⟩
+
+/-- the hypothesis of `rejected_unchanged` is satisfiable in the interesting way: the path under the
+area is replaced by an open one; the path is valid by itself, the referrer (the area) is not, the call
+is rejected, and the layer left behind is *not* the layer before (the temporary entry was written and
+removed again) — yet, by the theorem, reads the same. -/
+example :
+    let b := rootView exampleRoot
+    let r := Layer.empty.addFeature b exampleOracle ⟨1005, [], .path [1, 2, 3]⟩
+    r.2 = some Err.invalid ∧ validate (Layer.empty.view b (Layer.empty.loc b)) exampleOracle ⟨1005, [], .path [1, 2, 3]⟩ = true := by
+  decide
+
+/-- a merged change whose second part is rejected leaves the first part unapplied -/
+example :
+    let b := rootView exampleRoot
+    let r := mergedApply b exampleOracle Layer.empty
+      [.addTags [(1, ("name", ⟨"s", "x"⟩))], .addFeatures [⟨1005, [], .path [1, 2, 3]⟩]]
+    r.2 = some Err.invalid ∧ tagOf (r.1.view b (r.1.loc b)) 1 "name" = some none := by
+  decide
+
+end B6.Props.C13
